@@ -33,6 +33,10 @@ Definition e_reg (s : dm) (i j : nat) : Z :=
 (* ModifiedKernelMatrix::entry *)
 Definition e_mod (eq ne : Z) (s : dm) (i j : nat) : Z :=
   (if (nth i (labs s) 0 =? nth j (labs s) 0)%nat then eq else ne) * e_kernel s i j.
+(* ExampleModifiedKernelMatrix::entry with scaling coefficients 2^l (l = the per-example attribute in
+   [labs], at most 2), scaled by 16 to stay integral: 16 * k / (2^li * 2^lj) *)
+Definition e_ex (s : dm) (i j : nat) : Z :=
+  e_kernel s i j * 2 ^ (4 - Z.of_nat (nth i (labs s) 0%nat) - Z.of_nat (nth j (labs s) 0%nat)).
 (* row(k,start,end,storage) of the three classes *)
 Definition d_row (e : dm -> nat -> nat -> Z) (s : dm) (kk a b : nat) : list Z :=
   map (e s kk) (seq a (b - a)).
